@@ -110,7 +110,17 @@ def _model_cases(tier, rng):
                 d[k] = form % a
             done.append(k)
         cases.append(tuple(sorted(d.items(), key=lambda kv: repr(kv))))
+    # sheets of a dictionary-built model that carry no workbook: names that need quoting for other reasons than a blank
+    for sheet in ("'MY SHEET'", "'MY-SHEET'", "'A+B'", "'A(1)'", "'TRUE'", 'DATA.2'):
+        cases.append(tuple(sorted({'%s!A1' % sheet: 5, '%s!B1' % sheet: '=%s!A1*2' % sheet, '%s!B2' % sheet: '=SUM(%s!A1:B1)' % sheet}.items())))
     return cases
+
+
+def _classify_model(case, detail):
+    keys = [k for k, _ in case]
+    if any(k.startswith("'") and not k.startswith("'[") and ' ' not in k.split('!')[0] for k in keys):
+        return 'KF-C09-2'
+    return None
 
 
 def _vals(sol, keys):
@@ -129,11 +139,13 @@ def _check_model(case):
     import formulas
     logging.disable(logging.CRITICAL)
     d = dict(case)
+    # (a model whose sheets carry no workbook is used as imported: completion would look for a workbook file to load them from)
+    fin = (lambda m: m.finish()) if all('[' in k for k in d) else (lambda m: m)
     try:
-        m1 = formulas.ExcelModel().from_dict(d).finish()
+        m1 = fin(formulas.ExcelModel().from_dict(d))
         s1 = m1.calculate()
         d1 = m1.to_dict()
-        m2 = formulas.ExcelModel().from_dict(d1).finish()
+        m2 = fin(formulas.ExcelModel().from_dict(d1))
         s2 = m2.calculate()
         d2 = m2.to_dict()
     except Exception as ex:
@@ -175,6 +187,10 @@ XLSX_MODELS = [
            'B6': '=ISTEXT(A6)'}},
     {'T': {'A1': ('text', '=say "hi"'), 'A2': ('text', '=plain'), 'A3': ('text', 'a "quoted" word'), 'A4': ('text', '="'),
            'B1': '=LEN(A1)', 'B2': '=A2&"!"', 'B3': '=A3', 'B4': '=LEN(A4)'}},
+    # sheet names that need quoting for other reasons than a blank
+    {'MY-SHEET': {'A1': 5, 'A2': "='A+B'!A1*2"}, 'A+B': {'A1': 7, 'A2': "='MY-SHEET'!A1+'2020'!A1"}, '2020': {'A1': 1, 'A2': "='A(1)'!A1&\"x\""},
+     'A(1)': {'A1': 'p', 'A2': "=SUM('MY-SHEET'!A1:A2)"}},
+    {"O'Brien": {'A1': 3, 'A2': '=A1+1'}, 'DATA': {'A1': "='O''Brien'!A2*2"}},          # an apostrophe in the sheet name (KF-C04-3)
     {'N': {'A1': ('text', '=a\nb'), 'A2': '="x"&CHAR(10)&"y"', 'B1': '=LEN(A1)'}},          # a line break inside a text literal (KF-C09-1)
 ]
 
@@ -232,10 +248,11 @@ def _check_xlsx(i):
 
 BOUNDED = [
     Stage('B3:json-round-trip-of-workbooks-loaded-from-file', 'C09', _xlsx_cases, _check_xlsx,
-          '8 small workbooks written to a scratch directory (dangling sheet / file / name references, unknown functions, whole-column and '
+          '10 small workbooks written to a scratch directory (dangling sheet / file / name references, unknown functions, whole-column and '
           'intersection references, sheet names that need quoting, text cells that look like formulas / errors / blanks and contain quotes, a line '
           'break inside a text literal), loaded from file, exported and re-imported', parallel=False,
-          classify=lambda case, detail: 'KF-C09-1' if XLSX_MODELS[case] is XLSX_MODELS[-1] else None),
+          classify=lambda case, detail: ('KF-C09-1' if XLSX_MODELS[case] is XLSX_MODELS[-1] else
+                                         ('KF-C04-3' if any("'" in sheet for sheet in XLSX_MODELS[case]) else None))),
     Stage('B1:exported-text-parses-back-to-the-same-formula', 'C09', _reparse_cases, _check_reparse,
           'random trees of the C01 generator (depth 1..4, 2 spelling styles) and reference expressions (range / intersection / union, '
           'nested to depth 2) as function arguments: get_expr(ast("=" + get_expr(ast(f)))) == get_expr(ast(f)); 2500 quick / about 240000 thorough',
@@ -243,7 +260,8 @@ BOUNDED = [
     Stage('B2:json-export-import-round-trip-of-small-models', 'C09', _model_cases, _check_model,
           'random models of 4..16 cells on 1..2 sheets (names that need quoting), constants of every kind (text that looks like a formula, quotes, '
           'blank text, error text), 11 formula templates incl. unresolved sheets / functions / names: values equal after to_dict -> from_dict, and the '
-          'second export equals the first; 60 quick / 6000 thorough', max_report=20),
+          'second export equals the first; 60 quick / 6000 thorough; 6 models whose sheets carry no workbook and need quoting', max_report=20,
+          classify=_classify_model),
 ]
 
 PROPERTIES = {
